@@ -61,6 +61,9 @@ var reprMsgs = [][]interface{}{
 	{map[string]interface{}{"k": "a"}, map[string]interface{}{"n": 2.0}},
 	{map[string]interface{}{"k": "b", "n": 1.0}, "str", map[string]interface{}{"likes": "tacos"}},
 	{3.0, map[string]interface{}{"t": "b"}, map[string]interface{}{"k": "a", "n": 2.0, "extra": true}},
+	// arrays: a number inside an array pattern is compared as it was decoded (no coercion there)
+	{[]interface{}{1.0, 2.0}, map[string]interface{}{"k": "a"}, []interface{}{2.0, 1.0, 3.0}, map[string]interface{}{"n": 2.0}},
+	{map[string]interface{}{"k": []interface{}{map[string]interface{}{"id": 1.0}, map[string]interface{}{"id": 2.0}}}, []interface{}{1.0, 2.0}},
 }
 
 // behaviour of a compiled spec on fixed message sequences
